@@ -935,6 +935,7 @@ class Engine:
                     raise Unsupported("symbolic range step")
                 step = sv.as_long()
             st.env[cname] = Num(lo.z, True)
+            st.env["len_" + cname] = Num(hi.z, True)      # ghost: the bound of the counter (so that `it <= len_it` reads the same for range and sequence loops)
             lo_z, hi_z = lo.z, hi.z
             self._loop_bounds = getattr(self, "_loop_bounds", {})
             self._loop_bounds[k] = (lo_z, hi_z, step)
